@@ -292,6 +292,7 @@ def apply_op(xx, op):
         if gb is not None:
             try:
                 gb.wld2pix(*gb.pix2wld(0.5, 0.5))
+                _ = gb.extent, gb.boundingbox     # cached Geometry objects travel with a later pickle as well
             except Exception:  # noqa: BLE001 - only the side effect on cached state matters here
                 pass
         return xx
@@ -396,6 +397,19 @@ def labels_report(spec, xx, iy, ix):
         want = [t + r * (i + Fraction(1, 2)) for i in idx] if st else [i + Fraction(1, 2) for i in idx]
         if got != want:
             return f"labels of {dim!r} are {[str(v) for v in got[:4]]}.. but the pixel centres are {[str(v) for v in want[:4]]}.."
+    if st and spec["crs"] is not None:
+        # units of the two written coordinates: CF names for lon/lat, else the unit of a horizontal axis as pyproj reports
+        # it -- never empty (polar stereographic / UPS grids have two axes pointing the same way)
+        import pyproj
+        if S.CRS_TABLE[spec["crs"]][1]:
+            want_u = {ydim: {"degrees_north"}, xdim: {"degrees_east"}}
+        else:
+            names = {ax.unit_name for ax in pyproj.CRS.from_user_input(spec["crs"].upper()).axis_info[:2]}
+            want_u = {ydim: names, xdim: names}
+        for dim in (ydim, xdim):
+            u = xx.coords[dim].attrs.get("units")
+            if not u or u not in want_u[dim]:
+                return f"coordinate {dim!r} of a {spec['crs']} grid has units {u!r}, expected one of {sorted(want_u[dim])}"
     return None
 
 
@@ -523,10 +537,50 @@ def build_reproject_case(rc):
     yy.attrs.update(xx.attrs)
     yy.encoding.update(xx.encoding)
     dvars = {"a": xx, "b": yy}
+    extra = {}
     if rc.get("passthrough"):
-        dvars["c"] = xr.DataArray([2, 3, 4], dims=("q",))
+        extra["c"] = xr.DataArray([2, 3, 4], dims=("q",))
+    for name in rc.get("extra_vars", []):
+        extra[name] = nonraster_var(name)
+    # non-raster variables stored BEFORE the rasters: xarray keeps the attrs of the first of equal scalar coordinates
+    dvars = {**extra, **dvars} if rc.get("passthrough_first") else {**dvars, **extra}
     ds = xr.Dataset(dvars, attrs=rc["ds_attrs"])
     return ds, dst
+
+
+def nonraster_var(name):
+    """variables of a Dataset that are not rasters: they do not span the spatial dimensions"""
+    import xarray as xr
+    if name == "w":       # a table without coordinates
+        return xr.DataArray(np.arange(6.0).reshape(2, 3), dims=("obs", "band"))
+    if name == "wl":      # a table with numeric row labels and STRING column labels
+        return xr.DataArray(np.arange(6.0).reshape(2, 3), dims=("obs", "band"), coords={"obs": [1.0, 2.0], "band": ["r", "g", "b"]})
+    if name == "wn":      # a table with numeric labels on both dimensions
+        return xr.DataArray(np.arange(6.0).reshape(2, 3), dims=("obs", "band"), coords={"obs": [10.0, 20.0], "band": [1.0, 2.0, 3.0]})
+    raise ValueError(name)
+
+
+def crs_coord_report(out, dst_spec):
+    """the CRS coordinate of a reprojection output, judged without the implementation's helpers: it must name the
+    destination CRS, its GeoTransform must be the destination's six coefficients (GDAL order) and it must not carry
+    ground control points"""
+    if "spatial_ref" not in out.coords:
+        return "output has no spatial_ref coordinate"
+    at = out.coords["spatial_ref"].attrs
+    a = [unfr(v) for v in dst_spec["affine"]]
+    want_gt = [a[2], a[0], a[1], a[5], a[3], a[4]]
+    try:
+        got_gt = [S.F(float(p)) for p in str(at.get("GeoTransform", "")).split(" ")]
+    except ValueError:
+        got_gt = None
+    if got_gt != want_gt:
+        return f"spatial_ref.GeoTransform is {at.get('GeoTransform')!r}, destination grid is {[str(v) for v in want_gt]}"
+    if "gcps" in at:
+        return "spatial_ref still carries ground control points"
+    c = S.parse_crs(at.get("spatial_ref", at.get("crs_wkt", "")))
+    if c is None or S.crs_key(c) != S.CRS_TABLE[dst_spec["crs"]]:
+        return f"spatial_ref names CRS {S.crs_key(c) if c is not None else None}, destination is {S.CRS_TABLE[dst_spec['crs']]}"
+    return None
 
 
 def p_reproject(rc):
@@ -544,6 +598,15 @@ def p_reproject(rc):
         objs += [(n, out[n]) for n in ("a", "b")]
         if rc.get("passthrough") and not bool((out["c"] == src["c"]).all()):
             return False, "non-georegistered variable changed"
+        for name in rc.get("extra_vars", []):
+            want_v = nonraster_var(name)
+            if name not in out or tuple(out[name].dims) != tuple(want_v.dims) or out[name].shape != want_v.shape \
+                    or not np.array_equal(np.asarray(out[name].values), want_v.values):
+                return False, (f"non-raster variable {name!r} {want_v.dims}{want_v.shape} came back as "
+                               f"{tuple(out[name].dims) if name in out else None}{out[name].shape if name in out else ''}")
+    bad = crs_coord_report(out, rc["dst"])
+    if bad:
+        return False, f"{type(out).__name__}: {bad}"
     for n, o in objs:
         got = S.box_of(o.odc.geobox)
         if got != want:
@@ -790,10 +853,39 @@ def p_reproject_covers(rc, gopts):
     return True, "ok"
 
 
-def p_affine_axis(xs, ys):
-    """affine_from_axis on exactly representable regular axes: label[k] = A*(k+1/2)."""
+def p_reproject_ds_1d(spec_src, spec_dst, along):
+    """A Dataset holding a raster and a 1-d variable along one of the raster's spatial dimensions (per-row / per-column
+    metadata), reprojected: the Dataset and its raster must still recover the destination GeoBox."""
+    import xarray as xr
+    from odc.geo.xr import xr_zeros
+    g, d = build_geobox(spec_src), build_geobox(spec_dst)
+    ydim, xdim = spec_dims(spec_src)
+    dim, n = (ydim, spec_src["shape"][0]) if along == "y" else (xdim, spec_src["shape"][1])
+    ds = xr.Dataset({"a": xr_zeros(g, dtype="int16"), "meta": (dim, np.arange(n))})
+    out = ds.odc.reproject(d)
+    want = spec_box(spec_dst)
+    for n_, o in (("Dataset", out), ("a", out["a"])):
+        got = S.box_of(o.odc.geobox)
+        if got != want:
+            return False, (f"{n_}: recovered {None if got is None else got[1:4]}, requested {want[1:4]} (sizes {dict(out.sizes)}): the 1-d "
+                           f"variable along {dim!r} keeps its source index, the Dataset constructor outer-joins old and new labels")
+    return True, "ok"
+
+
+def p_affine_axis(xs, ys, dtype="float64"):
+    """affine_from_axis on exactly representable regular axes: label[k] = A*(k+1/2).  The labels may be stored in any
+    numeric dtype (unsigned and narrow integers included, ascending or descending); the same must hold for the GeoBox
+    the .odc accessor recovers from an array carrying these labels."""
+    import xarray as xr
+    import odc.geo.xr  # noqa: F401  pylint: disable=unused-import  (registers the .odc accessor)
     from odc.geo.math import affine_from_axis
-    A = S.aff6(affine_from_axis(np.array([float(v) for v in xs]), np.array([float(v) for v in ys])))
+    ax, ay = np.array([float(v) for v in xs]).astype(dtype), np.array([float(v) for v in ys]).astype(dtype)
+    if [S.F(v) for v in ax.tolist()] != list(xs) or [S.F(v) for v in ay.tolist()] != list(ys):
+        return True, "inexact"
+    A = S.aff6(affine_from_axis(ax, ay))
+    gb = xr.DataArray(np.zeros((len(ys), len(xs)), dtype="uint8"), dims=("y", "x"), coords={"y": ay, "x": ax}).odc.geobox
+    if gb is None or S.aff6(gb.affine) != A:
+        return False, f"{dtype} labels x={ax.tolist()} y={ay.tolist()}: affine_from_axis gives {A}, the accessor {None if gb is None else S.aff6(gb.affine)}"
     for k, v in enumerate(xs):
         if aff_apply(A, k + Fraction(1, 2), Fraction(1, 2))[0] != v:
             return False, f"x label {k}={v} but A maps to {aff_apply(A, k + Fraction(1, 2), Fraction(1, 2))[0]}; A={A}"
@@ -812,7 +904,8 @@ PREDICATES = {
     "reproject_covers": lambda a: p_reproject_covers(a["rc"], a["grid"]),
     "reproject_many_crs": lambda a: p_reproject_many_crs(a["n"], a["rounds"]),
     "reproject_grid": lambda a: p_reproject_grid(a["case"]),
-    "affine_axis": lambda a: p_affine_axis([unfr(v) for v in a["xs"]], [unfr(v) for v in a["ys"]]),
+    "reproject-ds-1d-spatial-var": lambda a: p_reproject_ds_1d(a["src"], a["dst"], a["along"]),
+    "affine_axis": lambda a: p_affine_axis([unfr(v) for v in a["xs"]], [unfr(v) for v in a["ys"]], a.get("dtype", "float64")),
 }
 
 
@@ -948,7 +1041,7 @@ def gen_reproject_case(rng, container=None, dask=None):
         rx, ry = Fraction(65536), Fraction(-65536)
         tx, ty = Fraction(rng.randint(17, 28) * 65536), Fraction(rng.randint(0, 60) * 65536)
     src = {"cls": "north_up", "shape": [ny, nx], "affine": [fr(rx), "0", fr(tx), "0", fr(ry), fr(ty)], "crs": src_crs}
-    dst_crs = rng.choice(["epsg:3857", "epsg:3857", "epsg:4326", "epsg:32633"])
+    dst_crs = rng.choice(["epsg:3857", "epsg:3857", "epsg:4326", "epsg:32633", src_crs, src_crs])
     centre = (float(tx + rx * nx / 2), float(ty + ry * ny / 2))
     centre = point(centre[0], centre[1], src_crs).to_crs(dst_crs).coords[0]
     dst = gen_dst_spec(rng, dst_crs, centre)
@@ -971,7 +1064,8 @@ def gen_reproject_case(rng, container=None, dask=None):
             "ntime": rng.choice([None, None, 2]), "name": rng.choice(["spatial_ref", "spatial_ref", "crs"]),
             "attrs": stale, "attr_gm": rng.random() < 0.3, "extra_coords": rng.random() < 0.4,
             "nodata": rng.choice([None, None, 255, -9999, 0.5]),
-            "passthrough": rng.random() < 0.5,
+            "passthrough": rng.random() < 0.5, "passthrough_first": rng.random() < 0.5,
+            "extra_vars": rng.choice([[], [], ["w"], ["wl"], ["wn", "w"], ["wn"]]),
             "ds_attrs": ds_attrs}
 
 
@@ -1356,6 +1450,15 @@ def search(out, tier):
         nx_, ny_ = rng.randint(2, 9), rng.randint(2, 9)
         rx, ry, tx, ty = gen_res(rng) * rng.choice([1, -1]), gen_res(rng) * rng.choice([1, -1]), gen_off(rng), gen_off(rng)
         run("affine_axis", {"xs": [fr(tx + i * rx) for i in range(nx_)], "ys": [fr(ty + i * ry) for i in range(ny_)]})
+    # ... with labels stored as integers of every width and signedness, ascending and descending
+    for i in range(60 if quick else 600):
+        dtype = ["uint8", "uint16", "uint32", "uint64", "int8", "int16", "int32", "int64"][i % 8]
+        hi = {"uint8": 255, "int8": 127}.get(dtype, 30000)
+        nx_, ny_ = rng.randint(2, 6), rng.randint(2, 6)
+        rx, ry = rng.choice([1, 2, 5, 10, 20]) * rng.choice([1, -1]), rng.choice([1, 2, 5, 10, 20]) * rng.choice([1, -1])
+        x0 = rng.randint(0 if rx > 0 else -rx * (nx_ - 1), hi - (rx * (nx_ - 1) if rx > 0 else 0))
+        y0 = rng.randint(0 if ry > 0 else -ry * (ny_ - 1), hi - (ry * (ny_ - 1) if ry > 0 else 0))
+        run("affine_axis", {"xs": [fr(x0 + i_ * rx) for i_ in range(nx_)], "ys": [fr(y0 + i_ * ry) for i_ in range(ny_)], "dtype": dtype})
     # reprojection outputs
     for i in range(40 if quick else 400):
         rc = gen_reproject_case(rng, container=["da", "ds"][i % 2], dask=(i % 4) >= 2)
@@ -1365,6 +1468,12 @@ def search(out, tier):
         if rc["dst"]["crs"] == rc["src"]["crs"]:
             rc["dst"]["crs"] = "epsg:3857" if rc["src"]["crs"] != "epsg:3857" else "epsg:4326"
         run("reproject_crs", {"rc": rc})
+    # OPEN FINDING c09:reproject-ds-1d-spatial-var (docs/notes/C09.md): a 1-d variable along y or x in the Dataset
+    for along in ("y", "x"):
+        run("reproject-ds-1d-spatial-var",
+            {"src": {"cls": "north_up", "shape": [6, 8], "affine": ["16384", "0", "1605632", "0", "-16384", "3342336"], "crs": "epsg:3857"},
+             "dst": {"cls": "north_up", "shape": [3, 4], "affine": ["32768", "0", "1605632", "0", "-32768", "3342336"], "crs": "epsg:3857"},
+             "along": along})
     # every output-grid option in geometries where it matters, judged against the meaning of the option (Fractions)
     for k in range(33 if quick else 220):
         run("reproject_grid", {"case": gen_grid_case(rng, k)})
